@@ -596,7 +596,7 @@ Proc(e) ==
                 a == pr(a1)
                 b == pr(b1)
             IN [base EXCEPT !.fails = IF a = b \/ e.conj = "C12.stable" THEN {} ELSE
-                    IF e.conj \in {"C11.others", "C13.unchanged", "C15.bytes", "C18.equal", "C06.bounded"} THEN {e.conj} ELSE {"TOOL.bad_conj"},
+                    IF e.conj \in {"C11.others", "C11.solo", "C13.unchanged", "C15.bytes", "C18.equal", "C06.bounded"} THEN {e.conj} ELSE {"TOOL.bad_conj"},
                             \* byte-identical re-creation of a released image is more than C12 demands (layout and
                             \* placement are documented, the order inside a chain or the choice of a free slot is not)
                             !.drift = IF a # b /\ e.conj = "C12.stable" THEN "the stored history no longer reproduces the released image byte for byte" ELSE "",
